@@ -15,6 +15,7 @@ package vbft
 import (
 	"fmt"
 	"math"
+	"math/rand"
 	"sort"
 	"testing"
 	"time"
@@ -33,7 +34,9 @@ type vbMsgDesc struct {
 }
 
 type vbStep struct {
-	K    string    `json:"k"`    // start | deliver | byz | timeout
+	K    string    `json:"k"`    // start | deliver | byz | timeout | random
+	Seed int64     `json:"seed"` // random: one legal event chosen by the harness (delivery of a message an honest node
+	//                              has really sent, or a really pending timer)
 	Node int       `json:"node"` // acting / receiving honest node
 	Msg  vbMsgDesc `json:"msg"`  // deliver: message previously sent by an honest node (From); byz: fabricated
 	From int       `json:"from"` // deliver: sender; byz: the Byzantine sender
@@ -55,6 +58,7 @@ type vbNodeObs struct {
 	CommittedE    bool        `json:"committedE"`
 	CDone         bool        `json:"cdone"`
 	Sealed        *vbMsgDesc  `json:"sealed"`
+	SealValid     []int       `json:"sealValid"` // distinct peers holding a VALID signature over the sealed block in this node's pool at the seal decision
 	Resync        bool        `json:"resync"`
 	Pending       []string    `json:"pending"`
 	Props         [][2]int    `json:"props"`
@@ -71,6 +75,7 @@ type vbStepObs struct {
 	Sent   []vbMsgDesc `json:"sent"`
 	Obs    *vbNodeObs  `json:"obs"`
 	Panic  string      `json:"panic,omitempty"`
+	Chosen *vbStep     `json:"chosen,omitempty"` // random steps: the concrete event that was executed
 }
 
 type vbSent struct {
@@ -80,9 +85,10 @@ type vbSent struct {
 }
 
 type vbNode struct {
-	idx    int
-	s      *Server
-	sealed *vbMsgDesc
+	idx       int
+	s         *Server
+	sealValid []int
+	sealed    *vbMsgDesc
 	resync bool
 	fired  map[TimerEventType]*time.Timer
 }
@@ -182,8 +188,58 @@ func (w *vbWorld) dispatch(nd *vbNode, a *BftAction) {
 			d.T = "seal"
 			d.E = a.forEmpty
 			nd.sealed = &d
+			nd.sealValid = w.validSignersFor(nd.s, d.P, d.V, d.E)
 		}
 	}
+}
+
+// validSignersFor: distinct peers with a valid signature (real keys) over block (p, v, e) among everything the node's
+// pool holds for proposer p (proposal, endorsement table, commit messages and the signatures they carry)
+func (w *vbWorld) validSignersFor(s *Server, p, v int, e bool) []int {
+	net := w.net
+	out := []int{}
+	if p < 1 || p > net.n || v < 0 {
+		return out
+	}
+	h := net.blockHash(p, v, e)
+	valid := map[uint32]bool{}
+	pool := s.blockPool
+	pool.lock.RLock()
+	if c := pool.candidateBlocks[vbHeight]; c != nil {
+		for _, pr := range c.Proposals {
+			if int(pr.Block.getProposer()) == p && w.describe(pr).V == v {
+				valid[uint32(p)] = true
+			}
+		}
+		for endorser, l := range c.EndorseSigs {
+			for _, x := range l {
+				if int(x.EndorsedProposer) == p && x.ForEmpty == e && net.validSig(endorser, h, x.Signature) {
+					valid[endorser] = true
+				}
+			}
+		}
+		for _, m := range c.CommitMsgs {
+			if int(m.BlockProposer) != p || m.CommitForEmpty != e {
+				continue
+			}
+			if net.validSig(m.Committer, h, m.CommitterSig) {
+				valid[m.Committer] = true
+			}
+			if net.validSig(uint32(p), h, m.ProposerSig) {
+				valid[uint32(p)] = true
+			}
+			for i, sg := range m.EndorsersSig {
+				if net.validSig(i, h, sg) {
+					valid[i] = true
+				}
+			}
+		}
+	}
+	pool.lock.RUnlock()
+	for _, x := range vbSortedU32(valid) {
+		out = append(out, int(x))
+	}
+	return out
 }
 
 func (w *vbWorld) pump(nd *vbNode) []vbMsgDesc {
@@ -267,7 +323,7 @@ func (w *vbWorld) pendingTimers(nd *vbNode) []string {
 
 func (w *vbWorld) observe(nd *vbNode) *vbNodeObs {
 	s := nd.s
-	o := &vbNodeObs{Node: nd.idx, Sealed: nd.sealed, Resync: nd.resync, Pending: w.pendingTimers(nd), Props: [][2]int{}, Cmsgs: []vbMsgDesc{},
+	o := &vbNodeObs{Node: nd.idx, Sealed: nd.sealed, SealValid: nd.sealValid, Resync: nd.resync, Pending: w.pendingTimers(nd), Props: [][2]int{}, Cmsgs: []vbMsgDesc{},
 		MpEnd: []vbMsgDesc{}, MpProp: [][2]int{}}
 	pool := s.blockPool
 	pool.lock.RLock()
@@ -388,11 +444,11 @@ func TestVerifVBNetReplay(t *testing.T) {
 						so.Status = "panic"
 					}
 				}()
-				if nd == nil {
+				if nd == nil && st.K != "random" {
 					so.Status = "infeasible:no-such-honest-node"
 					return
 				}
-				if nd.sealed != nil {
+				if nd != nil && nd.sealed != nil {
 					so.Status = "sealed-node"
 					so.Obs = w.observe(nd)
 					return
@@ -419,6 +475,54 @@ func TestVerifVBNetReplay(t *testing.T) {
 					data, err := SerializeVbftMsg(w.fabricate(st.From, st.Msg))
 					vhMust(err)
 					so.Status = w.intake(nd, uint32(st.From), data)
+				case "random":
+					// a legal event drawn at random on the REAL state: used for random tails after model-generated prefixes
+					rng := rand.New(rand.NewSource(st.Seed))
+					type ev struct {
+						nd   *vbNode
+						sent *vbSent
+						tt   TimerEventType
+						name string
+					}
+					var evs []ev
+					for idx := 1; idx <= in.N; idx++ {
+						n2 := w.nodes[idx]
+						if n2 == nil || n2.sealed != nil || n2.resync {
+							continue
+						}
+						for j := range w.sent {
+							if int(w.sent[j].from) != idx && w.sent[j].desc.T != "fetch" && w.sent[j].desc.T != "other" {
+								evs = append(evs, ev{nd: n2, sent: &w.sent[j]})
+							}
+						}
+						for _, name := range []string{"propose", "backoff2", "endorse", "commit"} {
+							tt := vbTimerNames[name]
+							n2.s.timer.lock.Lock()
+							tm, present := n2.s.timer.eventTimers[tt][vbHeight]
+							n2.s.timer.lock.Unlock()
+							if present && n2.fired[tt] != tm {
+								// timers weigh as much as three deliveries
+								evs = append(evs, ev{nd: n2, tt: tt, name: name}, ev{nd: n2, tt: tt, name: name}, ev{nd: n2, tt: tt, name: name})
+							}
+						}
+					}
+					if len(evs) == 0 {
+						so.Status = "infeasible:nothing-enabled"
+						return
+					}
+					e := evs[rng.Intn(len(evs))]
+					nd = e.nd
+					if e.sent != nil {
+						st.K, st.Node, st.From, st.Msg = "deliver", nd.idx, int(e.sent.from), e.sent.desc
+						so.Status = w.intake(nd, e.sent.from, e.sent.data)
+					} else {
+						st.K, st.Node, st.T = "timeout", nd.idx, e.name
+						nd.s.timer.lock.Lock()
+						nd.fired[e.tt] = nd.s.timer.eventTimers[e.tt][vbHeight]
+						nd.s.timer.lock.Unlock()
+						w.timerEvent(nd, &TimerEvent{evtType: e.tt, blockNum: vbHeight})
+					}
+					so.Chosen = st
 				case "timeout":
 					tt, ok := vbTimerNames[st.T]
 					if !ok {
